@@ -2,6 +2,7 @@ CONSTANTS
   DEV_QuoteFlagsBeforeEmit = FALSE
   DEV_GluedAfterAccepted = FALSE
   DEV_RestrictedNeedsValidBody = FALSE
+  DEV_DelCredEmptyListIsNil = FALSE
   Alphabet = {97, 66, 49, 32, 9, 44, 34, 58, 233}
   MaxLen = 5
   CfgNames = {"allon", "alloff"}
